@@ -37,6 +37,7 @@ Parameter = repo("armi.reactor.parameters.parameterDefinitions:Parameter")
 PDC = repo("armi.reactor.parameters.parameterDefinitions:ParameterDefinitionCollection")
 NoDefault = repo("armi.reactor.parameters.parameterDefinitions:NoDefault")
 NEVER = repo("armi.reactor.parameters.parameterDefinitions:NEVER")
+Category = repo("armi.reactor.parameters.parameterDefinitions:Category")
 
 
 # ----------------------------------------------------------------------------- stand-ins (collaborators)
@@ -85,6 +86,9 @@ class BlockStub:
 
     def rotate(self, rad):
         self.rotation = self.rotation + rad
+
+    def getVolume(self):
+        return self.volume
 
 
 class AxialStub:
@@ -199,7 +203,7 @@ def block(name, k, grid, stationary):
                p=new(PMap, ztop=10.0 * (k + 1), power=0.0, mgFlux=[0.0, 0.0], temperature=600.0, paramDefs=BLOCKDEFS))
 
 
-BLOCKDEFS = new(PDefs, defs=[pdef("power", True, ()), pdef("mgFlux", True, ("flux", "multigroup")), pdef("temperature", False, ())])
+BLOCKDEFS = new(PDefs, defs=[pdef("power", True, ()), pdef("mgFlux", True, (Category.fluxQuantities, Category.multiGroupQuantities)), pdef("temperature", False, ())])
 
 
 def assembly(num, nBlocks, label, stationary=()):
@@ -526,3 +530,39 @@ def add_remove_add_remove_round_trips_with_one_changer(centre: int, low1: int, l
         assert eq(second[k]._children[0].p.power, a._children[0].p.power)
     ch.removeEdgeAssemblies(core)
     assert unchanged(core, pool, snap) and inv(core, pool) and str(core.symmetry) == "third periodic", "and the core is back at the entry state again"
+
+
+@lemma(gen=dict(GEN, v=(1.0, 1e4)), stubs=STUBS, overrides=OVERRIDES, timeout=200)
+def half_values_on_both_halves_scaled_then_edges_removed_give_back_the_whole_hexagon(centre: int, low2: int, nb: int, f0: int, f1: int, maxNum: int, p0: float, p1: float, p2: float,
+                                                                                   fl: float, v: float):
+    """the finite-difference workflow: add edge assemblies; the solve leaves HALF of every volume-integrated whole-hexagon
+    value (power, multigroup flux) on each of the two half hexagons (the two are symmetric identicals); scaleParamsRelatedToSymmetry (REAL, on the real
+    core; its block-level algebra is proved in contracts/C13_scaling.py); removeEdgeAssemblies.  Afterwards the core is at
+    its entry state: same assemblies, places, names, and the entry (whole-hexagon) parameter values; parameters that
+    are not volume-integrated (temperature) were never touched.  Stand-in: BlockStub.getVolume() = its `volume`."""
+    centre = choose(centre, 0, 1)
+    low2 = choose(low2, 0, 1)
+    nb = choose(nb, 1, 2)
+    assume(v > 0)
+    mk_defs(f0, f1)
+    core, r, pool, allA, lower, upper = build("third periodic", centre, 0, 1, low2, 0, nb, maxNum, p0, p1, p2, fl)
+    for a in allA:
+        for bi, b in enumerate(a._children):
+            b.volume = v
+            b.p.power = b.p.power + bi * p2  # every block has its own values
+            b.p.mgFlux = [b.p.mgFlux[0] + bi * p0, b.p.mgFlux[1] + bi]
+    snap = snapshot_of(core, allA)
+    n = len(allA)
+    ch = EdgeAssemblyChanger()
+    ch.addEdgeAssemblies(core)
+    copies = list(core._children[n:])
+    assert len(copies) == len(lower)
+    for q in range(len(lower)):
+        for bi in range(nb):
+            for b in (lower[q]._children[bi], copies[q]._children[bi]):
+                b.p.power = b.p.power / 2
+                b.p.mgFlux = [b.p.mgFlux[0] / 2, b.p.mgFlux[1] / 2]
+    EdgeAssemblyChanger.scaleParamsRelatedToSymmetry(core)
+    ch.removeEdgeAssemblies(core)
+    assert unchanged(core, pool, snap), "the whole-hexagon values are back on the assemblies of the 0-degree line, everything else as at entry"
+    assert inv(core, pool) and str(core.symmetry) == "third periodic"
